@@ -3,6 +3,22 @@
 //        (one hex string per kani::any() call, in order)
 fn main() {
     let args: Vec<String> = std::env::args().collect();
+    if args.len() == 7 && args[1] == "search" {
+        // verif-replay search <crate> <harness> <seed> <iterations> <expected-substring>
+        let seed: u64 = args[4].parse().expect("seed");
+        let iterations: u64 = args[5].parse().expect("iterations");
+        let expect_hex: String = args[6].bytes().map(|b| format!("{b:02x}")).collect();
+        let request = format!("search:{seed}:{iterations}:{expect_hex}:{}", args[3]);
+        let code = match args[2].as_str() {
+            "pumpkin-solver" => pumpkin_solver::verif_replay_entry(&request, vec![]),
+            "drcp-format" => drcp_format::verif_replay_entry(&request, vec![]),
+            other => {
+                eprintln!("unknown crate {other}");
+                4
+            }
+        };
+        std::process::exit(code);
+    }
     if args.len() != 4 {
         eprintln!("usage: verif-replay <pumpkin-solver|drcp-format> <module::harness> <hex[,hex...]>");
         std::process::exit(4);
